@@ -8,6 +8,9 @@ EVIDENCE_EXTRA = {"rules_not_under_contract": "all rules except _fuse_relus_clip
 
 def INCLUDE(name):
     # the literal-matching contract of the matcher decides C05's 'value only approximately equal / broadcast shapes' clause too
+    import re
+    if ".loop" in name and not re.match(r"C\d\d\.", name):
+        return True   # inductive loop invariants of functions under a C05 contract (TransposeTranspose._apply_transpose ...)
     return (name.startswith("C05.") or name.startswith("C06.matcher.match_constant") or name.startswith("C09.ir_utils.")
             or name.startswith("C06.pattern_ir.clone.constant"))
 
